@@ -115,7 +115,7 @@ func init() {
 		ID:    "C06",
 		Level: "exploration",
 		Rule: "case = one run: G in {2,4,8,16} goroutines, each a seeded mix of Parse(path, config), calls of SHARED parsed functions on SHARED read-only documents and " +
-			"Retrieve, over a corpus of ~400 paths (every step kind x function suffix, a slice of every comparison/logical shape, literal-only comparisons, random ASTs) x 3 " +
+			"Retrieve (runs are mixed, evaluation-only — no lock taken, hence no happens-before edge between goroutines at all — or parse-only), over a corpus of ~400 paths (every step kind x function suffix, a slice of every comparison/logical shape, literal-only comparisons, random ASTs) x 3 " +
 			"configurations x 34 documents; scheduler yields injected at the Parse/evaluation hook points; executed once under the Go race detector and once without; " +
 			"judged: zero race reports with a library frame, and every operation returns exactly its sequential outcome (computed before any goroutine starts); " +
 			"non-trivial = every operation executed while other goroutines were inside the library; distinct = distinct (operation kind, path, configuration, document) combinations; the evidence reports operations, the maximum number of " +
@@ -125,7 +125,7 @@ func init() {
 			var cc *concCorpus
 			ops := size(tier, 3000, 10000)
 			return &harness.Plan{
-				N:           size(tier, 16, 96),
+				N:           size(tier, 20, 96),
 				Race:        true,
 				NoRaceToo:   true,
 				MaxShards:   4,
@@ -151,7 +151,7 @@ func init() {
 						c.Cover("build:plain")
 					}
 				},
-				Required: []string{"build:race", "build:plain", "op:shared-call", "op:parse", "op:retrieve", "g:2", "g:16"},
+				Required: []string{"build:race", "build:plain", "op:shared-call", "op:parse", "op:retrieve", "g:2", "g:16", "mix:mixed", "mix:eval-only"},
 			}
 		},
 	})
@@ -167,6 +167,15 @@ func runC06(c *harness.Ctx, cc *concCorpus, opsPerG int) {
 		defer runtime.GOMAXPROCS(runtime.GOMAXPROCS(procs))
 	}
 	c.Cover(fmt.Sprintf("gomaxprocs:%d", procs))
+	// operation mix of this run. Every Parse takes the library's global lock, and for the race detector
+	// each lock hand-over orders everything the two goroutines did before / after it; a run in which
+	// nobody parses has no such edges, so ANY two unsynchronised accesses to a shared tree are reported,
+	// however far apart in time they happen.
+	mix := (c.K / 16) % 3
+	if c.K%5 == 4 {
+		mix = 1
+	}
+	c.Cover([]string{"mix:mixed", "mix:eval-only", "mix:parse-only"}[mix])
 	if procs == 1 || procs == 2 {
 		opsPerG = opsPerG * procs / 4 // the same goroutines on one or two Ps take proportionally longer
 	}
@@ -201,6 +210,12 @@ func runC06(c *harness.Ctx, cc *concCorpus, opsPerG int) {
 			for ; n < opsPerG; n++ {
 				i, j, d := rr.Intn(len(cc.texts)), rr.Intn(len(cc.cfgs)), rr.Intn(len(cc.docs))
 				op := rr.Intn(10)
+				switch mix {
+				case 1:
+					op = 0 // evaluation only: no lock is ever taken, so no happens-before edge exists between the goroutines
+				case 2:
+					op = 4 + op%6 // Parse and Retrieve only
+				}
 				kind := uint32(2)
 				if op < 4 {
 					kind = 0
